@@ -59,18 +59,17 @@ def plainBlock (code : Str) (its : List Item) : Block := { code := code, body :=
 
 /-! ### auxiliary -/
 
-theorem denoteElems_plain (dia : Dialect) (nk : Str → Str) : ∀ (its : List Item) (fs : List Container) (ls : List Loop),
+theorem denoteElems_map_plain (dia : Dialect) (nk : Str → Str) : ∀ (its : List Item) (fs : List Container) (ls : List Loop),
     denoteElems dia nk (its.map .plain) fs ls = (fs, denoteItems dia nk its ls)
-  | [], _, _ => rfl
+  | [], _, _ => by simp [denoteElems, denoteItems]
   | i :: r, fs, ls => by
-    simp only [List.map_cons, denoteElems]
-    rw [denoteElems_plain dia nk r fs]
+    rw [List.map_cons, Spec.Grammar.denoteElems_plain, denoteElems_map_plain dia nk r fs]
     exact congrArg _ (denoteItems_append dia nk [i] r ls).symm
 
 theorem denote_plain (dia : Dialect) (nk : Str → Str) (preB postB : List Block) (code : Str) (its : List Item) :
     denote dia nk (preB ++ [plainBlock code its] ++ postB)
       = denote dia nk preB ++ .mk code [] (denoteItems dia nk its []) :: denote dia nk postB := by
-  simp [denote, denoteBlock, plainBlock, denoteElems_plain]
+  simp [denote, denoteBlock, plainBlock, denoteElems_map_plain]
 
 /-- what the runs around a repaired construct `rep` leave has no empty loop -/
 theorem allPacked_run (o : Opts) (pre post rep : List Item) (seen2 : List Str) (hpre : wfItems o pre [] = true)
@@ -696,7 +695,7 @@ theorem C12_chars_dup_blockcode (o : Opts) (cs : List Chunk) (pa pb post : List 
   rw [← hf] at h
   refine ⟨r, ?_, hr⟩
   rw [hc, parse_of_blocks o acceptAll c rest s' _ H.utf hfirst hbom h]
-  simp [denote, denoteBlock, denoteElems_append, denoteElems_plain]
+  simp [denote, denoteBlock, denoteElems_append, denoteElems_map_plain]
 
 
 /-! ### the save-frame classes (Props/C12Lex): any ELEMENTS (items, loops, frames) of the data block before and behind -/
@@ -760,7 +759,7 @@ theorem elems_class_doc {o : Opts} {cs : List Chunk} {preB postB : List Block} {
 /-- loops of the block around a frame: none is empty -/
 theorem allPacked_around (o : Opts) (pre post : List Elem) (fc : Str) (body : List Item) (seen2 fseen2 : List Str)
     (hpre : wfElems o pre [] [] = true) (hpost : wfElems o post seen2 fseen2 = true) :
-    allPacked (denoteElems o.dia o.normKey (pre ++ [.frame fc body] ++ post) [] []).2 := by
+    allPacked (denoteElems o.dia o.normKey (pre ++ [.frame fc (body.map Elem.plain)] ++ post) [] []).2 := by
   rw [denoteElems_append, denoteElems_append]
   refine allPacked_denoteElems o post seen2 fseen2 _ _ hpost ?_
   simp only [denoteElems]
@@ -774,9 +773,9 @@ theorem C12_chars_invalid_framecode (o : Opts) (cs : List Chunk) (preB postB : L
     (hn0 : noNul fc = true) (hinv : isValidName false fc = false)
     (hnew : ∀ c ∈ (denoteElems o.dia o.normKey pre [] []).1, codeIs o.norm (o.norm fc) c = false)
     (hwb : wfItems o body [] = true) (hpost : wfElems o post seen2 fseen2 = true)
-    (hseen2 : ∀ k ∈ normNames o (denoteElems o.dia o.normKey (pre ++ [.frame fc body]) [] []).2, k ∈ seen2)
-    (hfseen2 : ∀ c ∈ (denoteElems o.dia o.normKey (pre ++ [.frame fc body]) [] []).1, o.norm c.code ∈ fseen2) :
-    OneReport o cs CIF_INVALID_FRAMECODE (preB ++ [{ code := bc, body := pre ++ [.frame fc body] ++ post }] ++ postB) := by
+    (hseen2 : ∀ k ∈ normNames o (denoteElems o.dia o.normKey (pre ++ [.frame fc (body.map Elem.plain)]) [] []).2, k ∈ seen2)
+    (hfseen2 : ∀ c ∈ (denoteElems o.dia o.normKey (pre ++ [.frame fc (body.map Elem.plain)]) [] []).1, o.norm c.code ∈ fseen2) :
+    OneReport o cs CIF_INVALID_FRAMECODE (preB ++ [{ code := bc, body := pre ++ [.frame fc (body.map Elem.plain)] ++ post }] ++ postB) := by
   have h4 := Lemmas.WriterChunks.szItems_toks body
   refine elems_class_doc H _ CIF_INVALID_FRAMECODE (szItems body + body.length + 3)
     (by simp only [List.length_cons, List.length_append, List.length_nil]; omega)
@@ -792,7 +791,7 @@ theorem C12_chars_eof_in_frame (o : Opts) (cs : List Chunk) (preB : List Block) 
     (fc : Str) (body : List Item) (H : ElemHost o cs preB [] bc pre [] ((.frameHead, fc) :: itemsToks body))
     (hcode : wfCode fc = true) (hnew : ∀ c ∈ (denoteElems o.dia o.normKey pre [] []).1, codeIs o.norm (o.norm fc) c = false)
     (hwb : wfItems o body [] = true) :
-    OneReport o cs CIF_EOF_IN_FRAME (preB ++ [{ code := bc, body := pre ++ [.frame fc body] }] ++ []) := by
+    OneReport o cs CIF_EOF_IN_FRAME (preB ++ [{ code := bc, body := pre ++ [.frame fc (body.map Elem.plain)] }] ++ []) := by
   have h4 := Lemmas.WriterChunks.szItems_toks body
   have hpk := allPacked_around o pre [] fc body [] [] H.wfRun rfl
   rw [List.append_nil] at hpk
@@ -809,7 +808,7 @@ theorem C12_chars_no_frame_term (o : Opts) (cs : List Chunk) (preB postB : List 
     (fc : Str) (body : List Item) (H : ElemHost o cs preB (b :: postB) bc pre [] ((.frameHead, fc) :: itemsToks body))
     (hcode : wfCode fc = true) (hnew : ∀ c ∈ (denoteElems o.dia o.normKey pre [] []).1, codeIs o.norm (o.norm fc) c = false)
     (hwb : wfItems o body [] = true) :
-    OneReport o cs CIF_NO_FRAME_TERM (preB ++ [{ code := bc, body := pre ++ [.frame fc body] }] ++ b :: postB) := by
+    OneReport o cs CIF_NO_FRAME_TERM (preB ++ [{ code := bc, body := pre ++ [.frame fc (body.map Elem.plain)] }] ++ b :: postB) := by
   have h4 := Lemmas.WriterChunks.szItems_toks body
   have hpk := allPacked_around o pre [] fc body [] [] H.wfRun rfl
   rw [List.append_nil] at hpk
@@ -826,13 +825,13 @@ theorem C12_chars_no_frame_term (o : Opts) (cs : List Chunk) (preB postB : List 
     becomes its sibling. -/
 theorem C12_chars_frame_nesting_depth (o : Opts) (cs : List Chunk) (preB postB : List Block) (bc : Str) (pre post : List Elem)
     (fc fc2 : Str) (body body2 : List Item) (seen2 fseen2 : List Str) (hmfd : o.maxFrameDepth = 1)
-    (H : ElemHost o cs preB postB bc pre (.frame fc2 body2 :: post) ((.frameHead, fc) :: itemsToks body))
+    (H : ElemHost o cs preB postB bc pre (.frame fc2 (body2.map Elem.plain) :: post) ((.frameHead, fc) :: itemsToks body))
     (hcode : wfCode fc = true) (hnew : ∀ c ∈ (denoteElems o.dia o.normKey pre [] []).1, codeIs o.norm (o.norm fc) c = false)
-    (hwb : wfItems o body [] = true) (hpost : wfElems o (.frame fc2 body2 :: post) seen2 fseen2 = true)
-    (hseen2 : ∀ k ∈ normNames o (denoteElems o.dia o.normKey (pre ++ [.frame fc body]) [] []).2, k ∈ seen2)
-    (hfseen2 : ∀ c ∈ (denoteElems o.dia o.normKey (pre ++ [.frame fc body]) [] []).1, o.norm c.code ∈ fseen2) :
+    (hwb : wfItems o body [] = true) (hpost : wfElems o (.frame fc2 (body2.map Elem.plain) :: post) seen2 fseen2 = true)
+    (hseen2 : ∀ k ∈ normNames o (denoteElems o.dia o.normKey (pre ++ [.frame fc (body.map Elem.plain)]) [] []).2, k ∈ seen2)
+    (hfseen2 : ∀ c ∈ (denoteElems o.dia o.normKey (pre ++ [.frame fc (body.map Elem.plain)]) [] []).1, o.norm c.code ∈ fseen2) :
     OneReport o cs CIF_NO_FRAME_TERM
-      (preB ++ [{ code := bc, body := pre ++ [.frame fc body] ++ .frame fc2 body2 :: post }] ++ postB) := by
+      (preB ++ [{ code := bc, body := pre ++ [.frame fc (body.map Elem.plain)] ++ .frame fc2 (body2.map Elem.plain) :: post }] ++ postB) := by
   have h4 := Lemmas.WriterChunks.szItems_toks body
   refine elems_class_doc H _ CIF_NO_FRAME_TERM (szItems body + body.length + 3)
     (by simp only [List.length_cons]; omega)
